@@ -383,12 +383,20 @@ def k_transform(run, case, rng, work):
         M[:3, :3] = s * (R @ np.diag([1, 1, -1.0]))
         valid = False
     elif kind == "shear":
+        # a skew of 1e-3..1 between two axes (1000x evo's own tolerance of 1e-6 and more), applied
+        # on either side of the rotation: right (columns stay unit) or left (rows stay unit)
         Sh = np.eye(3)
-        Sh[0, 1] = 10.0**rng.uniform(-2, 0)
-        M[:3, :3] = s * (R @ Sh)
+        i, j = [(0, 1), (1, 2), (2, 0), (1, 0)][rng.integers(4)]
+        Sh[i, j] = 10.0**rng.uniform(-3, 0) * (1 if rng.random() < .5 else -1)
+        M[:3, :3] = s * (R @ Sh) if rng.random() < .5 else s * (Sh @ R)
         valid = False
     elif kind == "bottom_row":
-        M[3, rng.integers(4)] += 10.0**rng.uniform(-6, 0)
+        if rng.random() < .5:
+            M[3, rng.integers(4)] += 10.0**rng.uniform(-6, 0)
+        else:
+            # several wrong entries at once (also ones that cancel in a sum)
+            d = 10.0**rng.uniform(-12, 1)
+            M[3, :3] = [[d, -d, 0.0], [d, d, -2 * d], [0.0, d, -d], [-d, 0.0, d]][rng.integers(4)]
         valid = False
     elif kind == "zero":
         M[:3, :3] = 0
